@@ -67,6 +67,8 @@ func vhLayout(layout int) []*vhPoolSpec {
 			{name: "p2", cidrs: []*net.IPNet{vhCIDR("fd00::/127")}, pinnedNS: "ns0"},
 			{name: "p3", cidrs: []*net.IPNet{vhCIDR("10.0.2.0/31"), vhCIDR("fd00:2::/127")}},
 		}
+	case 6: // layout 0's pool under another name (a pool is renamed)
+		return []*vhPoolSpec{{name: "q0", cidrs: []*net.IPNet{vhCIDR("10.0.0.0/30")}}}
 	case 4: // block on a .255/.0 boundary, for buggy-address avoidance
 		return []*vhPoolSpec{{name: "p0", cidrs: []*net.IPNet{vhCIDR("10.0.0.254/31"), vhCIDR("10.0.1.0/31")}}}
 	}
@@ -431,7 +433,7 @@ func VerifAllocStep(layout, nsvc, op, lite int) {
 			vr.Assert(a.Pool(act.name) == act.pool, "additional address from another pool")
 		}
 	case vhOpSetPools:
-		specs = vhLayout(vr.Choose(3))
+		specs = vhLayout([]int{0, 1, 2, 6}[vr.Choose(4)])
 		vhSymFlags(specs)
 		pools = vhPools(specs)
 		a.SetPools(pools)
